@@ -207,7 +207,28 @@ def renderIHexRecord (r : IHexRecord) : List Char :=
 def ihexRecords (unit : Nat) (bits : Bits) (spans : List Span) : List IHexRecord :=
   (getBlocks spans).flatMap (blockRecords bits unit)
 
+/-- what is written: data records with 16 address bits, and Extended Linear Address records (type 04) that set the upper
+    16 bits for the data records after them (finding F72, repaired: the upper bits were dropped) -/
+inductive IHexLine where
+  | data (addr16 : Nat) (bytes : List Nat)
+  | ext (upper : Nat)
+deriving Repr, DecidableEq
+
+/-- `upper` is the value set by the latest type-04 record (0 at the start of the file) -/
+def ihexLines : Nat → List IHexRecord → List IHexLine
+  | _, [] => []
+  | upper, r :: rs =>
+    let u := (r.addr / 65536) % 65536
+    (if u ≠ upper then [.ext u] else []) ++ .data (r.addr % 65536) r.bytes :: ihexLines u rs
+
+def renderIHexLine : IHexLine → List Char
+  | .data a bytes => renderIHexRecord ⟨a, bytes⟩
+  | .ext u =>
+    let sum := 2 + 4 + (u / 256) % 256 + u % 256
+    ":02000004".toList ++ padLeft '0' 2 (hexUp ((u / 256) % 256)) ++ padLeft '0' 2 (hexUp (u % 256)) ++
+    padLeft '0' 2 (hexUp ((256 - sum % 256) % 256)) ++ ['\n']
+
 def fmtIntelHex (unit : Nat) (bits : Bits) (spans : List Span) : List Char :=
-  ((ihexRecords unit bits spans).flatMap renderIHexRecord) ++ ":00000001FF".toList
+  ((ihexLines 0 (ihexRecords unit bits spans)).flatMap renderIHexLine) ++ ":00000001FF".toList
 
 end Casm
